@@ -1,7 +1,7 @@
 (* C02 — Intra pictures reconstruct exactly as H.263 prescribes.
    Proved so far (the composition over whole pictures is tied by execution against the
    reference reconstruction, see DESIGN.md): *)
-From H263V Require Import base.Prelude spec.SpecRecon model.Types model.Tables model.Syntax model.Recon model.Decoder proofs.ReconSpec proofs.RlePlacement.
+From H263V Require Import base.Prelude spec.SpecRecon model.Types model.Tables model.Syntax model.Recon model.Decoder proofs.ReconSpec proofs.RlePlacement model.Reader spec.SpecTables proofs.VlcTables model.F32 proofs.PlaneShape proofs.GatherSpec proofs.IdctPlacement.
 
 (* every coefficient: sign(L) (Q (2|L|+1) - [Q even]) saturated to -2048..2047, for every quantizer and level *)
 Theorem C02_dequant_exact : forall q level, 0 <= q -> dequant q level = spec_dequant q level.
@@ -37,7 +37,40 @@ Example C02_block_placement_example :
   = Some (DctVert [800; 27; -19; 0; 0; 0; 0; 0]).
 Proof. vm_compute. reflexivity. Qed.
 
+(* the code trees of the source decode exactly H.263 Table 7 (MCBPC for I pictures, with stuffing), Table 13 (CBPY) and
+   Table 16 (TCOEF, 102 events and the escape code): every code word, wherever it starts and whatever follows, is read
+   as its value and leaves exactly what follows; the trees hold no further valid code word *)
+Theorem C02_code_tables :
+  (forall code v rest pos, In (code, v) spec_mcbpc_i ->
+     read_vlc mcbpc_i_table (mkReader (code ++ rest) pos) = Ok (v, mkReader rest (pos + Z.of_nat (length code)))) /\
+  (forall code pat rest pos, In (code, pat) spec_cbpy ->
+     read_vlc cbpy_table_intra (mkReader (code ++ rest) pos) = Ok (Some pat, mkReader rest (pos + Z.of_nat (length code)))) /\
+  (forall code last run level rest pos, In (code, (last, run, level)) spec_tcoef ->
+     read_vlc tcoef_table (mkReader (code ++ rest) pos) = Ok (Some (Run last run level), mkReader rest (pos + Z.of_nat (length code)))) /\
+  (forall rest pos, read_vlc tcoef_table (mkReader (spec_tcoef_escape ++ rest) pos) = Ok (Some EscapeToLong, mkReader rest (pos + 7))) /\
+  count_leaves bpe_valid mcbpc_i_table = length spec_mcbpc_i /\
+  count_leaves (fun o : option (list bool) => match o with Some _ => true | None => false end) cbpy_table_intra = length spec_cbpy /\
+  count_leaves (fun o : option short_tcoef => match o with Some _ => true | None => false end) tcoef_table = S (length spec_tcoef).
+Proof.
+  exact (conj mcbpc_i_is_table7 (conj cbpy_is_table13 (conj tcoef_is_table16 (conj tcoef_escape_code
+         (conj (proj1 mcbpc_no_other_codes) (conj cbpy_no_other_codes tcoef_no_other_codes)))))).
+Qed.
+
+(* where the transform output goes, for every plane size (multiples of 8 or 16 or not), block grid and block list: sample (x, y)
+   receives the transform value of block (x/8, y/8) at offset (x mod 8, y mod 8) added to what the plane held (zero for intra
+   pictures, the prediction otherwise) and clipped to 0..255; blocks straddling the right or bottom edge are cropped; nothing
+   else is touched - whatever the sparsity class, whose loops differ in order and extent *)
+Theorem C02_transform_placement : forall w h levels out bpl bh,
+  plane_ok w h out -> 1 <= w -> 1 <= h -> 1 <= bpl -> 0 <= bh -> zlength levels = bpl * bh ->
+  exists out', idct_channel levels out bpl w = Ok out' /\ plane_ok w h out' /\
+    forall x y, 0 <= x < w -> 0 <= y < h ->
+      at_ out' x y = if (x / 8 <? bpl) && (y / 8 <? bh) then add_val (block_of levels bpl x y) (x mod 8) (y mod 8) (at_ out x y)
+                     else at_ out x y.
+Proof. exact idct_channel_spec. Qed.
+
 Print Assumptions C02_dequant_exact.
+Print Assumptions C02_transform_placement.
+Print Assumptions C02_code_tables.
 Print Assumptions C02_block_placement.
 Print Assumptions C02_zigzag_is_antidiagonal_walk.
 Print Assumptions C02_intradc_levels.
